@@ -4,7 +4,7 @@
    ./check C17 (real MeterProvider, 1..4 readers of mixed temporality, scripted callbacks, real and scripted clock).
    Histories are arbitrary lists of operations; [op_ok] is what the case parser guarantees (reader indices exist, callback
    identities come from the finite universe); the points handed out are compared on the attribute sets of [attrs]. *)
-From V Require Import C17.Glue C17.ProofsReg C17.ProofsBase C17.ProofsSum C17.ProofsGauge C17.ProofsMeets C17.ProofsHist C17.ProofsLv C17.ProofsTop.
+From V Require Import C17.Glue C17.ProofsReg C17.ProofsBase C17.ProofsSum C17.ProofsGauge C17.ProofsMeets C17.ProofsHist C17.ProofsLv C17.ProofsTop C17.ProofsWire.
 Local Open Scope Z_scope.
 
 (* ---- "At each collection by a reader every callback registered on an observable instrument is invoked exactly once":
@@ -178,6 +178,15 @@ Print Assumptions collect_gives_expected.
 Theorem model_meets_spec : forall cs, case_good cs -> spec_on cs = [].
 Proof. exact model_meets_spec_lemma. Qed.
 Print Assumptions model_meets_spec.
+
+(* the same on token lines, through the wire format: what the model prints is parsed back to itself *)
+Theorem observations_round_trip : forall l, parse_obs (print_obs l) = Some l.
+Proof. exact parse_print_obs. Qed.
+Print Assumptions observations_round_trip.
+
+Theorem model_meets_spec_on_the_wire : forall l cs, parse_case l = Some cs -> case_good cs -> run_spec l (run_model l) = [].
+Proof. exact model_meets_spec_wire_lemma. Qed.
+Print Assumptions model_meets_spec_on_the_wire.
 
 Theorem parsed_cases_are_well_formed : forall l c ops, parse_case l = Some (CObs c ops) -> Forall (op_ok c) ops.
 Proof. exact parse_case_ok. Qed.
